@@ -9,6 +9,7 @@ import "sync"
 type VerifOverride struct {
 	Outgoing          func(c *Conn, data []byte) []byte // rewrite an outgoing handshake message before transcript+write
 	ForceSuite13      uint16
+	ForceSuite12      uint16 // TLS <= 1.2 server: select this suite whatever the client offered
 	ForceGroup        CurveID
 	ForceALPN         *string
 	HRRCookie         []byte
@@ -116,4 +117,22 @@ func verifEmit(c *Conn, ev string, data []byte) {
 	if o := verifOv(c); o != nil && o.Emit != nil {
 		o.Emit(ev, data)
 	}
+}
+
+func verifSuite12(hs *serverHandshakeState, s *cipherSuite) *cipherSuite {
+	if o := verifOv(hs.c); o != nil && o.ForceSuite12 != 0 {
+		if f := cipherSuiteByID(o.ForceSuite12); f != nil {
+			return f
+		}
+	}
+	return s
+}
+
+func verifGroup12(config *Config, g CurveID) CurveID {
+	if v, ok := verifOverrides.Load(config); ok {
+		if o := v.(*VerifOverride); o.ForceGroup != 0 {
+			return o.ForceGroup
+		}
+	}
+	return g
 }
